@@ -35,8 +35,6 @@ import (
 func init() { Registry["C09"] = runC09 }
 
 const (
-	nUsers   = 3
-	nPools   = 3
 	nDenoms  = 2
 	defaultL = 40
 	header   = "From Kava Require Import Base.Prelude Model.Accumulator Model.Incentive."
@@ -88,8 +86,17 @@ type op struct {
 type hist struct {
 	Seed uint64  `json:"seed"`
 	Idx  int     `json:"history"`
+	Src  string  `json:"source"` // swap | delegator
 	Cfg  histCfg `json:"cfg"`
 	Ops  []op    `json:"ops"`
+}
+
+// dimensions of a source: users and pools (collateral types) of the model instance
+func dimsOf(src string) (nU, nP int) {
+	if src == "delegator" {
+		return 5, 1 // users 0..2 delegators, 3..4 validator operators; one "pool": the bond denom
+	}
+	return 3, 3
 }
 
 func bigOf(s string) *big.Int {
@@ -100,7 +107,7 @@ func bigOf(s string) *big.Int {
 	return x
 }
 
-func genCfg(r *Rng) histCfg {
+func genCfg(r *Rng, nPools int) histCfg {
 	sec := int64(1_000_000_000)
 	c := histCfg{}
 	for p := 0; p < nPools; p++ {
@@ -199,6 +206,9 @@ func genCfg(r *Rng) histCfg {
 // ------------------------------------------------------------ world
 
 type world struct {
+	src    string
+	nU, nP int
+	vals   []sdk.ValAddress // delegator source: validators created so far
 	tApp   app.TestApp
 	ctx    sdk.Context
 	height int64
@@ -210,8 +220,9 @@ type world struct {
 	t0     int64 // genesis time, unix nanoseconds
 }
 
-func setup(cfg histCfg) *world {
+func setup(src string, cfg histCfg) *world {
 	tApp := NewApp()
+	nUsers, nPools := dimsOf(src)
 	users := Addrs(nUsers)
 	cdc := tApp.AppCodec()
 	b := app.NewAuthBankGenesisBuilder()
@@ -226,7 +237,7 @@ func setup(cfg histCfg) *world {
 	t0 := GenesisTime
 	// swap genesis
 	var allowed swaptypes.AllowedPools
-	for p := 0; p < nPools; p++ {
+	for p := 0; p < len(poolTokens); p++ {
 		allowed = append(allowed, swaptypes.NewAllowedPool(poolTokens[p][0], poolTokens[p][1]))
 	}
 	swapGen := swaptypes.NewGenesisState(swaptypes.NewParams(allowed, sdk.MustNewDecFromStr("0.003")), swaptypes.DefaultPoolRecords, swaptypes.DefaultShareRecords)
@@ -242,8 +253,13 @@ func setup(cfg histCfg) *world {
 				rates = rates.Add(sdk.NewCoin(rewardDenoms[d], sdkmath.NewIntFromBigInt(amt)))
 			}
 		}
-		incGen.Params.SwapRewardPeriods = append(incGen.Params.SwapRewardPeriods,
-			inctypes.NewMultiRewardPeriod(true, poolID(p), t0.Add(time.Duration(pc.StartOff)), t0.Add(time.Duration(pc.EndOff)), rates))
+		if src == "delegator" {
+			incGen.Params.DelegatorRewardPeriods = append(incGen.Params.DelegatorRewardPeriods,
+				inctypes.NewMultiRewardPeriod(true, inctypes.BondDenom, t0.Add(time.Duration(pc.StartOff)), t0.Add(time.Duration(pc.EndOff)), rates))
+		} else {
+			incGen.Params.SwapRewardPeriods = append(incGen.Params.SwapRewardPeriods,
+				inctypes.NewMultiRewardPeriod(true, poolID(p), t0.Add(time.Duration(pc.StartOff)), t0.Add(time.Duration(pc.EndOff)), rates))
+		}
 	}
 	incGen.Params.ClaimEnd = t0.Add(time.Duration(cfg.ClaimEndOff))
 	for d, ms := range cfg.Mults {
@@ -258,7 +274,7 @@ func setup(cfg histCfg) *world {
 		app.GenesisState{swaptypes.ModuleName: cdc.MustMarshalJSON(&swapGen)},
 		app.GenesisState{inctypes.ModuleName: cdc.MustMarshalJSON(&incGen)},
 	)
-	w := &world{tApp: tApp, height: 2, t: t0, ik: tApp.GetIncentiveKeeper(), sk: tApp.GetSwapKeeper(), addrs: users, cfg: cfg, t0: t0.UnixNano()}
+	w := &world{src: src, nU: nUsers, nP: nPools, tApp: tApp, height: 2, t: t0, ik: tApp.GetIncentiveKeeper(), sk: tApp.GetSwapKeeper(), addrs: users, cfg: cfg, t0: t0.UnixNano()}
 	w.ctx = NewCtx(tApp, w.height, w.t)
 	var fund sdk.Coins
 	for d, a := range cfg.Macc {
@@ -304,6 +320,26 @@ func (w *world) snap() *snap {
 	s := &snap{now: big.NewInt(w.ctx.BlockTime().UnixNano())}
 	bk := w.tApp.GetBankKeeper()
 	maccAddr := w.tApp.GetAccountKeeper().GetModuleAddress(inctypes.IncentiveMacc)
+	if w.src == "delegator" {
+		w.snapDeleg(s)
+	} else {
+		w.snapSwap(s)
+	}
+	for u := 0; u < w.nU; u++ {
+		bb := make([]*big.Int, nDenoms)
+		for d := 0; d < nDenoms; d++ {
+			bb[d] = bk.GetBalance(w.ctx, w.addrs[u], rewardDenoms[d]).Amount.BigInt()
+		}
+		s.bal = append(s.bal, bb)
+	}
+	for d := 0; d < nDenoms; d++ {
+		s.macc = append(s.macc, bk.GetBalance(w.ctx, maccAddr, rewardDenoms[d]).Amount.BigInt())
+	}
+	return s
+}
+
+func (w *world) snapSwap(s *snap) {
+	nPools, nUsers := w.nP, w.nU
 	for p := 0; p < nPools; p++ {
 		id := poolID(p)
 		if t, ok := w.ik.GetSwapRewardAccrualTime(w.ctx, id); ok {
@@ -352,7 +388,7 @@ func (w *world) snap() *snap {
 		s.sh = append(s.sh, shRow)
 		s.uidx = append(s.uidx, uiRow)
 		sc, okS := w.ik.GetSynchronizedSwapClaim(w.ctx, w.addrs[u])
-		rr, ss, bb := make([]*big.Int, nDenoms), make([]*big.Int, nDenoms), make([]*big.Int, nDenoms)
+		rr, ss := make([]*big.Int, nDenoms), make([]*big.Int, nDenoms)
 		for d := 0; d < nDenoms; d++ {
 			rr[d], ss[d] = big.NewInt(0), big.NewInt(0)
 			if has {
@@ -361,19 +397,15 @@ func (w *world) snap() *snap {
 			if okS {
 				ss[d] = sc.Reward.AmountOf(rewardDenoms[d]).BigInt()
 			}
-			bb[d] = bk.GetBalance(w.ctx, w.addrs[u], rewardDenoms[d]).Amount.BigInt()
 		}
-		s.rew, s.synced, s.bal = append(s.rew, rr), append(s.synced, ss), append(s.bal, bb)
+		s.rew, s.synced = append(s.rew, rr), append(s.synced, ss)
 	}
-	for d := 0; d < nDenoms; d++ {
-		s.macc = append(s.macc, bk.GetBalance(w.ctx, maccAddr, rewardDenoms[d]).Amount.BigInt())
-	}
-	return s
 }
 
 // flat returns the projection in the order of Model/Incentive.v `project`.
 func (s *snap) flat() []*big.Int {
 	out := []*big.Int{s.now}
+	nPools, nUsers := len(s.tot), len(s.has)
 	for p := 0; p < nPools; p++ {
 		out = append(out, s.gtime[p], s.tot[p])
 		out = append(out, s.gidx[p]...)
@@ -407,9 +439,23 @@ func denomName(d int) string {
 	return "xyz"
 }
 
-func (w *world) claimMsg(o op) *inctypes.MsgClaimSwapReward {
-	return &inctypes.MsgClaimSwapReward{Sender: w.addrs[o.U].String(),
-		DenomsToClaim: inctypes.Selections{inctypes.NewSelection(denomName(o.D), o.M)}}
+// doClaim sends the source's claim message (one denom, one multiplier)
+func (w *world) doClaim(ctx sdk.Context, o op) error {
+	sel := inctypes.Selections{inctypes.NewSelection(denomName(o.D), o.M)}
+	if w.src == "delegator" {
+		msg := &inctypes.MsgClaimDelegatorReward{Sender: w.addrs[o.U].String(), DenomsToClaim: sel}
+		if err := msg.ValidateBasic(); err != nil {
+			return err
+		}
+		_, err := inckeeper.NewMsgServerImpl(w.ik).ClaimDelegatorReward(sdk.WrapSDKContext(ctx), msg)
+		return err
+	}
+	msg := &inctypes.MsgClaimSwapReward{Sender: w.addrs[o.U].String(), DenomsToClaim: sel}
+	if err := msg.ValidateBasic(); err != nil {
+		return err
+	}
+	_, err := inckeeper.NewMsgServerImpl(w.ik).ClaimSwapReward(sdk.WrapSDKContext(ctx), msg)
+	return err
 }
 
 func (w *world) exec(o op) (Class, error) {
@@ -460,14 +506,9 @@ func (w *world) exec(o op) (Class, error) {
 			return err
 		})
 	case "claim":
-		msg := w.claimMsg(o)
-		return Atomically(w.ctx, func(ctx sdk.Context) error {
-			if err := msg.ValidateBasic(); err != nil {
-				return err
-			}
-			_, err := inckeeper.NewMsgServerImpl(w.ik).ClaimSwapReward(sdk.WrapSDKContext(ctx), msg)
-			return err
-		})
+		return Atomically(w.ctx, func(ctx sdk.Context) error { return w.doClaim(ctx, o) })
+	case "mkval", "endblock", "delegate", "undelegate", "redelegate":
+		return w.execDeleg(o)
 	}
 	panic("unknown op kind " + o.Kind)
 }
@@ -519,6 +560,8 @@ func bankers(n, d *big.Int) *big.Int {
 // mon is the monitor's own accounting, derived only from the configuration,
 // the block times and the shares observed in the source module.
 type mon struct {
+	nU, nP    int
+	exact     bool // the source's total is exactly the sum of the share records
 	cfg       *histCfg
 	t0        int64
 	prevBlock []int64      // per pool: time of the previous accumulation (block) or -1
@@ -530,8 +573,8 @@ type mon struct {
 	totSlack  []*big.Rat   // per denom: sum of total * 0.5e-18 over those accumulations
 }
 
-func newMon(cfg *histCfg, t0 int64) *mon {
-	m := &mon{cfg: cfg, t0: t0}
+func newMon(cfg *histCfg, t0 int64, nUsers, nPools int, exact bool) *mon {
+	m := &mon{cfg: cfg, t0: t0, nU: nUsers, nP: nPools, exact: exact}
 	for p := 0; p < nPools; p++ {
 		m.prevBlock = append(m.prevBlock, -1)
 	}
@@ -563,10 +606,11 @@ func (m *mon) check(w *world, o op, cls Class, err error, before, after *snap, c
 		}
 	}
 	fb, fa := before.flat(), after.flat()
-	// the source guarantees total = sum of the share records
+	nUsers, nPools := m.nU, m.nP
+	// the source guarantees total = (>=) sum of the share records
 	for p := 0; p < nPools; p++ {
-		if after.sumSh[p].Cmp(after.tot[p]) != 0 {
-			return &verdict{"source-total-is-sum-of-shares", "swap-total-differs-from-share-sum", fmt.Sprintf("pool %d: sum %s total %s", p, after.sumSh[p], after.tot[p])}
+		if c := after.sumSh[p].Cmp(after.tot[p]); (m.exact && c != 0) || c > 0 {
+			return &verdict{"source-total-covers-sum-of-shares", "source-total-differs-from-share-sum", fmt.Sprintf("pool %d: sum %s total %s", p, after.sumSh[p], after.tot[p])}
 		}
 	}
 	if cls != ClassOk {
@@ -715,7 +759,7 @@ func (m *mon) check(w *world, o op, cls Class, err error, before, after *snap, c
 				}
 			}
 		}
-	case "deposit", "withdraw", "trade":
+	case "deposit", "withdraw", "trade", "mkval", "endblock", "delegate", "undelegate", "redelegate":
 		// a position change alters nobody's accrued reward, the actor's included
 		for u := 0; u < nUsers; u++ {
 			for d := 0; d < nDenoms; d++ {
@@ -744,13 +788,22 @@ func (m *mon) check(w *world, o op, cls Class, err error, before, after *snap, c
 				}
 			}
 		}
-		if o.Kind != "trade" {
-			m.nround[o.U]++
-			old, nw := before.sh[o.U][o.P], after.sh[o.U][o.P]
+		if o.Kind == "endblock" {
+			// validator set updates synchronise the delegators of the validators that changed state
+			for u := 0; u < nUsers; u++ {
+				m.nround[u] += 2
+			}
+		} else if o.Kind != "trade" {
+			m.nround[o.U] += 2 // a redelegation synchronises twice
+			pp := o.P
+			if nPools == 1 {
+				pp = 0 // delegator source: P is a validator, the only pool is the bond denom
+			}
+			old, nw := before.sh[o.U][pp], after.sh[o.U][pp]
 			switch {
-			case old.Sign() == 0 && before.has[o.U] && before.uidx[o.U][o.P][0].Sign()+before.uidx[o.U][o.P][1].Sign() > 0:
+			case old.Sign() == 0 && before.has[o.U] && before.uidx[o.U][pp][0].Sign()+before.uidx[o.U][pp][1].Sign() > 0:
 				mark("change:re-created-after-emptying")
-			case old.Sign() == 0 && after.gidx[o.P][0].Sign()+after.gidx[o.P][1].Sign() > 0:
+			case old.Sign() == 0 && after.gidx[pp][0].Sign()+after.gidx[pp][1].Sign() > 0:
 				mark("change:created-at-nonzero-index")
 			case old.Sign() == 0:
 				mark("change:created-at-zero-index")
@@ -760,7 +813,7 @@ func (m *mon) check(w *world, o op, cls Class, err error, before, after *snap, c
 			if old.Sign() > 0 {
 				moved := false
 				for d := 0; d < nDenoms; d++ {
-					if before.gidx[o.P][d].Cmp(before.uidx[o.U][o.P][d]) > 0 {
+					if before.gidx[pp][d].Cmp(before.uidx[o.U][pp][d]) > 0 {
 						moved = true
 					}
 				}
@@ -832,14 +885,13 @@ func (m *mon) check(w *world, o op, cls Class, err error, before, after *snap, c
 		// an immediate second claim yields nothing (probed on a discarded branch of the state)
 		cctx, _ := w.ctx.CacheContext()
 		cls2, _ := Atomically(cctx, func(ctx sdk.Context) error {
-			_, e := inckeeper.NewMsgServerImpl(w.ik).ClaimSwapReward(sdk.WrapSDKContext(ctx), w.claimMsg(o))
-			return e
+			return w.doClaim(ctx, o)
 		})
 		if cls2 == ClassOk {
 			return &verdict{"second-claim-yields-nothing", "second-claim-succeeded", fmt.Sprintf("user %d denom %d", o.U, o.D)}
 		}
 		m.claimed[o.U][o.D].Add(m.claimed[o.U][o.D], amt)
-		m.nround[o.U] += nPools
+		m.nround[o.U] += int64(nPools)
 		mark("claim:ok")
 		if new(big.Int).Mul(pay, prec).Cmp(new(big.Int).Mul(amt, f)) != 0 {
 			mark("claim:ok-with-rounding")
@@ -854,7 +906,7 @@ func (m *mon) check(w *world, o op, cls Class, err error, before, after *snap, c
 		for u := 0; u < nUsers; u++ {
 			credited := new(big.Int).Add(after.synced[u][d], m.claimed[u][d])
 			sumCredited.Add(sumCredited, credited)
-			rounds := m.nround[u] + nPools // the synchronised view itself rounds once per pool
+			rounds := m.nround[u] + int64(nPools) // the synchronised view itself rounds once per pool
 			sumRound += rounds
 			slack := new(big.Rat).Add(new(big.Rat).Mul(half, new(big.Rat).SetInt64(rounds)), m.idxSlack[u][d])
 			diff := new(big.Rat).Sub(new(big.Rat).SetInt(credited), m.J[u][d])
@@ -942,7 +994,11 @@ func (w *world) genBlockDt(r *Rng) int64 {
 	}
 }
 
-func (w *world) genOp(r *Rng, s *snap) op {
+func (w *world) genOp(r *Rng, s *snap, step int) op {
+	if w.src == "delegator" {
+		return w.genOpDeleg(r, s, step)
+	}
+	nUsers, nPools := w.nU, w.nP
 	u := r.Intn(nUsers)
 	p := r.Pick(45, 40, 15)
 	poolExists := func(p int) bool { return s.tot[p].Sign() > 0 }
@@ -1017,7 +1073,7 @@ func (w *world) genOp(r *Rng, s *snap) op {
 
 // ------------------------------------------------------------ Coq rendering
 
-func coqOp(w *world, o op, cls Class, after *snap) string {
+func coqOp(w *world, o op, cls Class, before, after *snap) string {
 	switch o.Kind {
 	case "block":
 		return fmt.Sprintf("Block %s", Z(after.now))
@@ -1026,6 +1082,32 @@ func coqOp(w *world, o op, cls Class, after *snap) string {
 			return "Other false"
 		}
 		return fmt.Sprintf("Change %s %s %s %s", Nat(o.U), Nat(o.P), Z(after.sh[o.U][o.P]), Z(after.tot[o.P]))
+	case "mkval", "delegate", "undelegate", "redelegate":
+		if cls != ClassOk {
+			return "Other false"
+		}
+		return fmt.Sprintf("Change %s %s %s %s", Nat(o.U), Nat(0), Z(after.sh[o.U][0]), Z(after.tot[0]))
+	case "endblock":
+		if cls != ClassOk {
+			return "Other false"
+		}
+		// a validator that became bonded: its (single) delegator's bonded stake changes
+		changed := -1
+		for u := range after.sh {
+			if after.sh[u][0].Cmp(before.sh[u][0]) != 0 {
+				if changed >= 0 {
+					return "Other false (* more than one delegator changed in one end block: not expressible *)"
+				}
+				changed = u
+			}
+		}
+		if changed >= 0 {
+			return fmt.Sprintf("Change %s %s %s %s", Nat(changed), Nat(0), Z(after.sh[changed][0]), Z(after.tot[0]))
+		}
+		if after.tot[0].Cmp(before.tot[0]) != 0 {
+			return fmt.Sprintf("SetTotal %s %s", Nat(0), Z(after.tot[0]))
+		}
+		return "Other true"
 	case "trade":
 		return fmt.Sprintf("Other %s", Bool(cls == ClassOk))
 	default:
@@ -1060,8 +1142,8 @@ func (w *world) coqHeader(s0 *snap) string {
 		}
 		pds = append(pds, fmt.Sprintf("Some (mk_period %s %s %s)", Z(big.NewInt(w.t0+pc.StartOff)), Z(big.NewInt(w.t0+pc.EndOff)), ZList(rates)))
 	}
-	env := fmt.Sprintf("(mk_env %s %s %s %s %s true)", Nat(nUsers), Nat(nPools), Nat(nDenoms), List(pds), Z(big.NewInt(w.t0+w.cfg.ClaimEndOff)))
-	return fmt.Sprintf("%s\n  %s %s %s\n  %s", env, Z(big.NewInt(w.t0)), ZList(s0.macc), ZList(s0.gtime), ZList(s0.flat()))
+	env := fmt.Sprintf("(mk_env %s %s %s %s %s %s)", Nat(w.nU), Nat(w.nP), Nat(nDenoms), List(pds), Z(big.NewInt(w.t0+w.cfg.ClaimEndOff)), Bool(w.src != "delegator"))
+	return fmt.Sprintf("%s\n  %s %s %s %s\n  %s", env, Z(big.NewInt(w.t0)), ZList(s0.macc), ZList(s0.gtime), ZList(s0.tot), ZList(s0.flat()))
 }
 
 // ------------------------------------------------------------ history runner
@@ -1074,14 +1156,14 @@ type runOut struct {
 	splits map[string]bool
 }
 
-func runHist(seed uint64, idx, n int, cfg histCfg, ops []op, cnt *Counters) runOut {
-	w := setup(cfg)
+func runHist(seed uint64, idx, n int, src string, cfg histCfg, ops []op, cnt *Counters) runOut {
+	w := setup(src, cfg)
 	r := NewRng(seed, uint64(idx)*2+1)
 	out := runOut{splits: map[string]bool{}}
 	prev := w.snap()
 	head := w.coqHeader(prev)
-	m := newMon(&w.cfg, w.t0)
-	for p := 0; p < nPools; p++ {
+	m := newMon(&w.cfg, w.t0, w.nU, w.nP, src != "delegator")
+	for p := 0; p < w.nP; p++ {
 		m.prevBlock[p] = prev.gtime[p].Int64() // the test app runs one begin block at genesis time
 	}
 	var steps []string
@@ -1093,13 +1175,14 @@ func runHist(seed uint64, idx, n int, cfg histCfg, ops []op, cnt *Counters) runO
 		if ops != nil {
 			o = ops[i]
 		} else {
-			o = w.genOp(r, prev)
+			o = w.genOp(r, prev, i)
 		}
 		cls, err := w.exec(o)
 		after := w.snap()
 		out.ops = append(out.ops, o)
 		if cnt != nil {
 			cnt.Inc("op:" + o.Kind + ":" + cls.String())
+			cnt.Inc("source:" + src)
 			if cls != ClassOk {
 				cnt.Inc("err:" + o.Kind + ":" + errKind(err))
 			}
@@ -1107,7 +1190,7 @@ func runHist(seed uint64, idx, n int, cfg histCfg, ops []op, cnt *Counters) runO
 		if cls == ClassOk {
 			out.okOps++
 		}
-		steps = append(steps, fmt.Sprintf("(%s,\n    %s)", coqOp(w, o, cls, after), coqObs(cls, prev.flat(), after.flat())))
+		steps = append(steps, fmt.Sprintf("(%s,\n    %s)", coqOp(w, o, cls, prev, after), coqObs(cls, prev.flat(), after.flat())))
 		if v := m.check(w, o, cls, err, prev, after, cnt, out.splits); v != nil && out.fail == nil {
 			out.fail = &Failure{History: idx, Step: i, Predicate: v.pred, Signature: v.sig, Detail: v.detail}
 		}
@@ -1118,7 +1201,7 @@ func runHist(seed uint64, idx, n int, cfg histCfg, ops []op, cnt *Counters) runO
 }
 
 var allSplits = []string{
-	"window:first-accumulation", "window:before-start", "window:straddles-start", "window:inside", "window:straddles-end",
+	"window:before-start", "window:straddles-start", "window:inside", "window:straddles-end",
 	"window:after-end", "window:covers-whole-period",
 	"secs:whole", "secs:below-half", "secs:above-half", "secs:half-to-even-down", "secs:half-to-even-up",
 	"accumulate:increment", "accumulate:no-shares-rewards-dropped",
@@ -1126,6 +1209,14 @@ var allSplits = []string{
 	"change:sync-with-positive-index-delta", "change:sync-with-zero-index-delta", "change:sync-credited-reward",
 	"claim:ok", "claim:ok-with-rounding", "claim:zero-claim", "claim:claim-expired", "claim:invalid-multiplier",
 	"claim:claim-not-found", "claim:insufficient-module-account-balance",
+}
+
+// every fourth history drives the delegator source, the others swap
+func srcOf(i int) string {
+	if i%4 == 3 {
+		return "delegator"
+	}
+	return "swap"
 }
 
 func runC09(o Opts) (*Result, error) {
@@ -1146,10 +1237,13 @@ func runC09(o Opts) (*Result, error) {
 		if err := json.Unmarshal(bz, &h); err != nil {
 			return nil, err
 		}
-		if len(h.Cfg.Periods) != nPools {
+		if h.Src == "" {
+			h.Src = "swap"
+		}
+		if _, np := dimsOf(h.Src); len(h.Cfg.Periods) != np {
 			return nil, fmt.Errorf("replay file has no configuration")
 		}
-		ot := runHist(h.Seed, h.Idx, 0, h.Cfg, h.Ops, cnt)
+		ot := runHist(h.Seed, h.Idx, 0, h.Src, h.Cfg, h.Ops, cnt)
 		name, err := WriteShard(o.OutDir, 0, header, []string{ot.coq}, "mismatches")
 		if err != nil {
 			return nil, err
@@ -1168,29 +1262,31 @@ func runC09(o Opts) (*Result, error) {
 	outs := make([]runOut, o.N)
 	cfgs := make([]histCfg, o.N)
 	ParallelFor(o.N, o.Workers, func(i int) {
-		cfg := genCfg(NewRng(o.Seed, uint64(i)*2))
+		src := srcOf(i)
+		_, np := dimsOf(src)
+		cfg := genCfg(NewRng(o.Seed, uint64(i)*2), np)
 		cfgs[i] = cfg
-		ot := runHist(o.Seed, i, n, cfg, nil, cnt)
+		ot := runHist(o.Seed, i, n, src, cfg, nil, cnt)
 		if ot.fail != nil {
 			sig := ot.fail.Signature
 			fails := func(cand []op) bool {
-				f := runHist(o.Seed, i, 0, cfg, cand, nil).fail
+				f := runHist(o.Seed, i, 0, src, cfg, cand, nil).fail
 				return f != nil && f.Signature == sig
 			}
 			small := Shrink(ot.ops[:ot.fail.Step+1], fails)
-			if f2 := runHist(o.Seed, i, 0, cfg, small, nil).fail; f2 != nil {
+			if f2 := runHist(o.Seed, i, 0, src, cfg, small, nil).fail; f2 != nil {
 				f2.History = i
-				f2.Replay = MustJSON(hist{o.Seed, i, cfg, small})
+				f2.Replay = MustJSON(hist{o.Seed, i, src, cfg, small})
 				ot.fail = f2
 			} else {
-				ot.fail.Replay = MustJSON(hist{o.Seed, i, cfg, ot.ops[:ot.fail.Step+1]})
+				ot.fail.Replay = MustJSON(hist{o.Seed, i, src, cfg, ot.ops[:ot.fail.Step+1]})
 			}
 		}
 		outs[i] = ot
 	})
 
 	seen := map[string]bool{}
-	perShard := 40
+	perShard := 25
 	var cases []string
 	shard := 0
 	flush := func() error {
@@ -1209,7 +1305,7 @@ func runC09(o Opts) (*Result, error) {
 	for i, ot := range outs {
 		res.Histories++
 		res.Evaluations += len(ot.ops)
-		h := hist{o.Seed, i, cfgs[i], ot.ops}
+		h := hist{o.Seed, i, srcOf(i), cfgs[i], ot.ops}
 		key := string(MustJSON(h.Cfg)) + string(MustJSON(ot.ops))
 		if (ot.splits["change:sync-credited-reward"] || ot.splits["claim:ok"]) && !seen[key] {
 			seen[key] = true
@@ -1238,6 +1334,6 @@ func runC09(o Opts) (*Result, error) {
 			res.QualityGate = append(res.QualityGate, k)
 		}
 	}
-	res.Extra = map[string]any{"sources_tied": []string{"swap"}}
+	res.Extra = map[string]any{"sources_tied": []string{"swap", "delegator"}}
 	return res, nil
 }
